@@ -17,17 +17,23 @@ echo "== demo with change"; (cd $OUT && timeout 900 $RUN) ; dw=$?; echo "demo ex
 echo "== suite with change (xdist, everything)"
 cd $WT
 PYTHONPATH=$D:$WT/src timeout 5000 $PY -m pytest -q -p no:cacheprovider --timeout=900 -n ${CONFIRM_JOBS:-6} -rf src/c testing/cffi0 testing/cffi1 \
-   2>&1 | tail -60 > $OUT/suite_par.txt
+   > $OUT/suite_par.full.txt 2>&1 < /dev/null     # to a file: an orphaned xdist worker must not keep a pipe open
+tail -60 $OUT/suite_par.full.txt > $OUT/suite_par.txt; rm -f $OUT/suite_par.full.txt
 tail -3 $OUT/suite_par.txt
 grep -oE "^FAILED [^ ]+" $OUT/suite_par.txt | sed 's/^FAILED //' | sort -u > $OUT/suite_failed_ids.txt
 echo "== failures under xdist re-run serially ($(wc -l < $OUT/suite_failed_ids.txt) tests; xdist races on testing/cffi0/__pycache__ are expected)"
 if [ -s $OUT/suite_failed_ids.txt ]; then
-  PYTHONPATH=$D:$WT/src timeout 5000 $PY -m pytest -q -p no:cacheprovider --timeout=900 -p no:xdist $(cat $OUT/suite_failed_ids.txt | tr '\n' ' ') 2>&1 | tail -5 | tee $OUT/suite_ser.txt
+  rm -f testing/cffi0/__pycache__/test_use_local_dir* testing/cffi0/__pycache__/*local_dir*   # half-written .so left by the xdist race
+  PYTHONPATH=$D:$WT/src timeout 5000 $PY -m pytest -q -p no:cacheprovider --timeout=900 -p no:xdist $(cat $OUT/suite_failed_ids.txt | tr '\n' ' ') > $OUT/suite_ser.full.txt 2>&1 < /dev/null
+  tail -5 $OUT/suite_ser.full.txt | tee $OUT/suite_ser.txt; rm -f $OUT/suite_ser.full.txt
 else
   echo "0 failed (nothing to re-run)" | tee $OUT/suite_ser.txt
 fi
 echo "== demo without change"
-git stash -q; build; (cd $OUT && timeout 900 $RUN); dc=$?; echo "demo exit clean: $dc"; git stash pop -q
+# (no `git stash`: the stash stack is shared by all worktrees of a repository)
+git diff > $OUT/patch.restore.diff; git checkout -q -- .
+build; (cd $OUT && timeout 900 $RUN); dc=$?; echo "demo exit clean: $dc"
+git apply $OUT/patch.restore.diff; rm -f $OUT/patch.restore.diff
 rm -rf $D
 xd=$(tail -1 $OUT/suite_par.txt | grep -oE "[0-9]+ (passed|failed)" | tr '\n' ' ')
 sr=$(tail -1 $OUT/suite_ser.txt | grep -oE "[0-9]+ (passed|failed)" | tr '\n' ' ')
